@@ -70,12 +70,25 @@ def coord(tok):
 _TOK = {coord(t): t for t in range(1, 10)}
 
 
-def concrete(tokens, kind):
+# dtype of the arrays handed to geoh5py, per data kind: the caller's dtype must not matter (padding with the
+# no-data value has to survive narrow integer inputs, float32, ...).  `turn` rotates through them.
+SOURCE_DTYPES = {"FLOAT": ["float64", "float32"], "INTEGER": ["int32", "uint8", "int64", "int16"],
+                 "BOOLEAN": ["bool"]}
+
+
+def concrete(tokens, kind, turn=0):
     """numpy array handed to geoh5py for a sequence of value tokens (NDV token = -1)."""
     if kind == "FLOAT":
-        return np.array([np.nan if t < 0 else t + 0.5 for t in tokens], dtype=float)
+        dtype = SOURCE_DTYPES[kind][turn % 2]
+        return np.array([np.nan if t < 0 else t + 0.5 for t in tokens], dtype=dtype)  # k + 0.5 is exact in float32
     if kind == "INTEGER":
-        return np.array([INT_NDV if t < 0 else t for t in tokens], dtype="int32")
+        if any(t < 0 for t in tokens):
+            dtype = ["int32", "int64"][turn % 2]  # only these can hold the integer no-data value
+        else:
+            dtype = SOURCE_DTYPES[kind][turn % 4]
+            if dtype == "uint8" and any(t > 255 for t in tokens):
+                dtype = "int16"
+        return np.array([INT_NDV if t < 0 else t for t in tokens], dtype=dtype)
     return np.array([False if t < 0 else bool(t % 2) for t in tokens], dtype=bool)
 
 
@@ -236,7 +249,7 @@ def fail_inconsistency(pre, impl, arity):
 
 
 # ------------------------------------------------------------------ driving geoh5py
-def build(ws, cls, arity, st, kinds, tag):
+def build(ws, cls, arity, st, kinds, tag, turn=0):
     """Create an object that is in the specification state `st`."""
     kw = {"vertices": np.array([coord(t) for t in st["verts"]], dtype=float).reshape(-1, 3), "name": f"obj{tag}"}
     if arity:
@@ -246,7 +259,7 @@ def build(ws, cls, arity, st, kinds, tag):
         name = f"d{rec['name']}"
         attr = {"association": rec["assoc"], "type": kinds[name]}
         if rec["has"]:
-            attr["values"] = concrete(rec["vals"], kinds[name])
+            attr["values"] = concrete(rec["vals"], kinds[name], turn + rec["name"])
         obj.add_data({name: attr})
     return obj
 
@@ -272,10 +285,11 @@ class Runner:
         self.viol = []
         self.stats = Counter()
         self.dead = False
+        self.turn = 0
 
     def _build(self, st):
         self.nbuilt += 1
-        return build(self.ws, self.cls, self.arity, st, self.kinds, self.nbuilt)
+        return build(self.ws, self.cls, self.arity, st, self.kinds, self.nbuilt, self.item.get("pid", 0) + self.nbuilt)
 
     def close(self):
         try:
@@ -297,16 +311,19 @@ class Runner:
         """-> (outcome, observation, source_observation or None). Exceptions of geoh5py are outcomes."""
         act = lab["act"]
         source = None
+        dup = None
+        self.turn += 1  # which source dtype the arrays of this call get
+        turn = self.item.get("pid", 0) + self.turn
         try:
             if act == "AddData":
                 name = f"d{lab['name']}"
                 attr = {"association": lab["assoc"], "type": self.kinds[name]}
                 if lab["k"] >= 0:
-                    attr["values"] = concrete(lab["vals"], self.kinds[name])
+                    attr["values"] = concrete(lab["vals"], self.kinds[name], turn)
                 self.obj.add_data({name: attr})
             elif act == "SetValues":
                 name = f"d{lab['name']}"
-                self._child(name).values = concrete(lab["vals"], self.kinds[name])
+                self._child(name).values = concrete(lab["vals"], self.kinds[name], turn)
             elif act == "RemoveVertices":
                 self.obj.remove_vertices(self._index(lab["ix"]), clear_cache=bool(lab.get("clear", False)))
             elif act == "RemoveCells":
@@ -319,6 +336,10 @@ class Runner:
                 source = self.obj
                 new = self.obj.copy(cell_mask=np.array(lab["mask"], dtype=bool))
                 self.obj = new
+            elif act == "ReadParts":
+                _ = self.obj.parts  # computes and caches Curve._parts; nothing may change
+            elif act == "CopyClearCache":
+                dup = self.obj.copy(clear_cache=True)  # the source stays the object under observation
             elif act == "Reopen":
                 return self.reopen(last)
             else:
@@ -329,7 +350,9 @@ class Runner:
         except Exception as exc:  # pylint: disable=broad-except
             out = f"error:{type(exc).__name__}"
         obs = observe(self.obj, self.arity)
-        src = observe(source, self.arity) if source is not None else None
+        if dup is not None:
+            return out, obs, ("copy-differs", observe(dup, self.arity))
+        src = ("source-modified", observe(source, self.arity)) if source is not None else None
         return out, obs, src
 
     def reopen(self, last=False):
@@ -388,8 +411,10 @@ class Runner:
                     kind = f"failed-op-inconsistent:{facet}"
                 elif lab["out"] == "ok":
                     kind = "valid-op-fails"
-            if src is not None and kind is None and difference(src, pre_ns, self.arity) is not None:
-                kind = "source-modified"
+            # the source of a masked copy must be untouched; the duplicate of copy(clear_cache=True) must be the
+            # (unchanged) specified state
+            if src is not None and kind is None and difference(src[1], pre_ns, self.arity) is not None:
+                kind = src[0]
             if kind is not None:
                 # the smallest set of named deviations whose prediction is exactly what geoh5py did
                 hits = [sorted(d["name"]) for d in lab["devs"]
@@ -551,7 +576,8 @@ def run(tier, seed):
         neg.append(f"{cfg}: {inv} violated")
     # vacuity: every operation in both outcomes, every deviation predicted somewhere
     needed = [f"act:{a}:{o}" for a in ("AddData", "SetValues", "RemoveVertices", "RemoveCells", "MaskedCopy")
-              for o in ("ok", "refused")] + ["act:Reopen:ok", "act:CellMaskedCopy:ok"]
+              for o in ("ok", "refused")] + ["act:Reopen:ok", "act:CellMaskedCopy:ok", "act:CopyClearCache:ok",
+                                               "act:ReadParts:ok"]
     missing = [k for k in needed if not stats.get(k)]
     if missing:
         raise MachineryError(f"never exercised: {missing}")
@@ -582,7 +608,10 @@ def run(tier, seed):
         "assumptions": [
             "bounds: see spec/align/*.cfg (<=3 (quick) / <=4 (thorough) vertices, <=2/3 cells, <=2 data names, "
             "index sequences of length <=2/3, TLC depth 3/4; replayed paths walk up to 10 operations)",
-            "data kinds FLOAT, INTEGER, BOOLEAN rotate over the paths; TEXT data are not modelled",
+            "data kinds FLOAT, INTEGER, BOOLEAN rotate over the paths and the dtype of the arrays handed over rotates "
+            "over float64/float32 and int32/uint8/int64/int16; TEXT data are not modelled",
+            "copy(clear_cache=True) is offered on Points, Surface and on curves whose segments join consecutive "
+            "vertices in increasing order",
             "a failing operation is required to leave a consistent, value-preserving state, not the pre-state",
             "non-negative indices only; copies stay in the same workspace; clear_cache=True only with single-index "
             "removals; indices are passed as list / ndarray alternately",
